@@ -16,8 +16,10 @@ Inductive kind := Plain | Fixed | Varying.
    TBlob  trivially copyable class type with its own ==/< (bytewise lexicographic);
    TUInt / TSInt  unsigned / signed integral type wider than one byte;
    TU8 / TS8 / TByte  unsigned char / signed char / std::byte;
-   TTrk   a type with non-trivial copy/move/destroy/assign/swap (instrumented) *)
-Inductive ty := TBlob | TUInt | TSInt | TU8 | TS8 | TByte | TTrk.
+   TTrk   a type with non-trivial copy/move/destroy/assign/swap (instrumented);
+   TTrkC  non-trivial copy/move constructors, trivial destructor (the reverse does not
+          exist: std::is_trivially_*_constructible requires a trivial destructor) *)
+Inductive ty := TBlob | TUInt | TSInt | TU8 | TS8 | TByte | TTrk | TTrkC.
 
 Record param := { pk : kind; psz : Z; pal : Z; pty : ty }.
 
